@@ -395,12 +395,12 @@ static void grp_verify(void) { accepted_all(enum_verify); }
 int
 main(int argc, char **argv) {
 	c13_init(argc, argv);
-	c13_group("radius_pkt_chk", grp_pkt_chk);
-	c13_group("radius_attr_chk", grp_attr_chk);
-	c13_group("radius_get_from_offset", grp_get_from_offset);
-	c13_group("radius_find_raw", grp_find_raw);
-	c13_group("radius_get_data_ptr", grp_get_data_ptr);
-	c13_group("radius_to_buf", grp_to_buf);
-	c13_group("radius_verify", grp_verify);
+	c13_group("radius_pkt_chk", grp_pkt_chk, "radius_pkt_chk");
+	c13_group("radius_attr_chk", grp_attr_chk, "radius_pkt_attr_chk");
+	c13_group("radius_get_from_offset", grp_get_from_offset, "radius_pkt_attr_get_from_offset");
+	c13_group("radius_find_raw", grp_find_raw, "radius_pkt_attr_find_raw");
+	c13_group("radius_get_data_ptr", grp_get_data_ptr, "radius_pkt_attr_get_data_ptr");
+	c13_group("radius_to_buf", grp_to_buf, "radius_pkt_attr_get_data_to_buf");
+	c13_group("radius_verify", grp_verify, "radius_pkt_verify");
 	return (vh_finish());
 }
